@@ -317,7 +317,7 @@ func (c dhcpWireCase) sample() any {
 func TestPropDhcpWire(t *testing.T) {
 	e := newDhcpWireEnv(t)
 	defer e.close()
-	vstat.Checks(1200, 24000)
+	vstat.Checks(3000, 45000)
 	rapid.Check(t, func(rt *rapid.T) {
 		c := genDhcpWire(rt)
 		runDhcpWire(rt, e, c)
